@@ -19,6 +19,7 @@ static bool gen_c10(uint64_t seed, const std::string &tier, uint64_t i, Plan &p)
     int nl = (int)r.range(0, 3); for (int q = 0; q < nl; q++) { std::string d = r.pick(doms); if (used.insert(d).second) loc.push(mixcase(r, d)); }
     if (loc.a.empty() || r.chance(0.8)) { if (used.insert("l.example").second) loc.push("l.example"); }
     conf.set("locals", loc);
+    if (r.chance(0.08)) conf.set("no_locals", true);   // control/locals absent: only control/me is local
     Json vd = Json::arr(); int nv = (int)r.range(0, 5); std::set<std::string> vk;
     for (int q = 0; q < nv; q++) {
       int kind = (int)r.below(5); std::string key;
